@@ -139,7 +139,7 @@ def gen_history(seed, tier, classes=None, weights=None, n_ops=(6, 16),
                 max_handles=3, pre_p=0.4, dmax=6, fresh_p=0.0, dataset_kinds=None,
                 unknown=False, verbose_p=0.15, extras_p=0.5, share_p=0.3,
                 classifier_bias=1, cp_fit_p=0.25, cp_invalid_p=0.0, calib_invalid_p=0.25,
-                store_bias=1, tiny_scale_p=0.0, wide_p=0.0):
+                store_bias=1, tiny_scale_p=0.0, wide_p=0.0, grid_p=0.0):
   r = substream(seed, "hist")
   if wide_p and substream(seed, "hist-wide").random() < wide_p:
     return gen_wide_history(seed)
@@ -242,10 +242,19 @@ def gen_history(seed, tier, classes=None, weights=None, n_ops=(6, 16),
              m=r.choice([1, 1, 2, 3, 4, 5, 6, 7]),
              kind=r.choice(["mixed", "dups", "plain", "random"]),
              via="indices" if (s.pre and r.random() < 0.5) else "formed")
+    if p["via"] == "indices" and r.random() < 0.2:
+      p["neg"] = True
     if r.random() < 0.3:
       p["layout"] = r.choice(["F", "T", "T"])
     if r.random() < 0.25:
       p["near"] = r.choice([1e-6, 1e-9, 1e-12])
+    elif grid_p and r.random() < grid_p:
+      # dyadic-grid probe: exact ties by translation, optionally far from the origin
+      p["grid"] = True
+      p["via"] = "formed"
+      p["m"] = r.choice([2, 4, 5, 6])
+      if r.random() < 0.4:
+        p["far"] = r.choice([20, 30, 36])
     return p
 
   def methods(s):
